@@ -35,3 +35,7 @@ def check(ctx: Ctx) -> None:
     # "returns only after every task ... has finished" - and it does return: a task ends when its callbacks have run, not when some
     # Future a plain callback handed back completes (that may well wait for the close itself)
     S.r_execute_optional(ctx, "R08.13")
+    # a task flush() forgot while it was still inside a callback is invisible to the close that follows (premise shared with C13)
+    S.r_snapshot_forget(ctx, "R13.1")
+    # "provided no task or callback raised, it returns normally": no loop over a live registry with a suspension in its body
+    CL.r_no_live_iteration(ctx, "R08.14", ("gather_and_close",))
